@@ -118,6 +118,7 @@ def install(E):
     # ---- assumed: from_line (decided under C08's own targets / C19) ------------------------
     def greq_from_line_post(ctx, old, args, outcome):
         cls, line = args
+        ctx.ghost["from_line_arg"] = line
         if outcome[0] == "return":
             r = outcome[1]
             ctx.ghost["current_request"] = r
@@ -131,6 +132,7 @@ def install(E):
 
     def treq_from_line_post(ctx, old, args, outcome):
         cls, line = args
+        ctx.ghost["from_line_arg"] = line
         if outcome[0] == "return":
             r = outcome[1]
             ctx.ghost["current_request"] = r
@@ -268,6 +270,26 @@ def install(E):
         return z3.Implies(z3.And(und, over), z3.And(ctx.getf(p, "request_taken").z, ctx.getf(p, "g_handler_calls").z == 0, ctx.getf(p, "g_mw_calls").z == 0,
                                                     z3.Implies(opened, z3.PrefixOf(SV("59 "), out_of(ctx, p)))))
 
+    def dr_line_processed(ctx, old, args, outcome):
+        """a complete line within the limit is taken as the request line - whatever the segmentation: it is
+        handed to from_line (or, for titan:// with uploads disabled, answered 50), never refused as over-long"""
+        p, data = args
+        o = old.snap[p.oid]
+        und = z3.And(z3.Not(o["request_taken"].z), z3.Not(o["response_sent"].z), z3.Not(o["url_line_received"].z))
+        b2 = z3.Concat(o["buffer"].z, data.z)
+        i = z3.IndexOf(b2, CRLF, 0)
+        L = z3.SubString(b2, 0, i)          # the bytes before the first CRLF
+        first = z3.And(i >= 0, i + 2 <= 1024, codecs_model.valid_utf8(L))
+        arg = ctx.ghost.get("from_line_arg")
+        text = codecs_model.utf8dec(L)
+        no_up = z3.Not(env.present(old.snap[p.oid].get("upload_handler")))
+        t = T_of(ctx, p)
+        opened = z3.Not(old.snap[t.oid]["g_closed"].z)
+        disabled = z3.And(no_up, z3.PrefixOf(SV("titan://"), text), z3.Implies(opened, z3.PrefixOf(SV("50 "), out_of(ctx, p))))
+        if arg is None:
+            return z3.Implies(z3.And(und, first), disabled)
+        return z3.Implies(z3.And(und, first), z3.Or(arg.z == text, disabled))
+
     def dr_refusal_status(ctx, old, args, outcome):
         """a response produced without consulting the chain or a handler is a 59 (50: Titan disabled)"""
         p, data = args
@@ -302,6 +324,7 @@ def install(E):
                  ("[C07] bytes after the request never change the outcome and never start a second dispatch", dr_after_taken),
                  ("[C07,C08] without a complete line and within 1024 bytes nothing is decided; the buffer is what was received", dr_wait),
                  ("[C01,C08] over-long input is refused with 59 and reaches no handler or middleware", dr_oversize),
+                 ("[C07,C08] a complete line of at most 1022 bytes is the request line whatever the read boundaries: it is parsed (or answered 50 for titan:// with uploads disabled), never refused as over-long", dr_line_processed),
                  ("[C08] a request refused before the chain/handler is answered 59 (50 when uploads are disabled)", dr_refusal_status),
                  ("[C07,C14] Titan content is exactly the first `size` bytes after the request line; fewer bytes only wait", dr_titan_content)])
 
